@@ -150,6 +150,39 @@ func bigTier(rnd *rand.Rand, ipv uint8, sg *polgen.SetGen) polprog.Tier {
 	return t
 }
 
+// bigListTier: one rule whose numeric port list (or CIDR list) alone exceeds the per-program jump limit, so
+// that the builder has to split the program in the MIDDLE of the list; entries before and after the split
+// point must all still match.  kind 0: destination ports, 1: source ports, 2: destination CIDRs.
+func bigListTier(rnd *rand.Rand, ipv uint8, kind int) polprog.Tier {
+	t := polprog.Tier{Name: "biglist", EndAction: polprog.TierEndPass, EndRuleID: 2}
+	r := &proto.Rule{Action: "allow", Protocol: polgen.ProtoByName("tcp")}
+	n := 8200 + rnd.Intn(1500)
+	switch kind {
+	case 0, 1:
+		var prs []*proto.PortRange
+		base := 1000 + rnd.Intn(2000)
+		for i := 0; i < n; i++ {
+			p := int32(base + 5*i) // spaced single ports: one jump each
+			prs = append(prs, &proto.PortRange{First: p, Last: p})
+		}
+		if kind == 0 {
+			r.DstPorts = prs
+		} else {
+			r.SrcPorts = prs
+		}
+	default:
+		for i := 0; i < n; i++ {
+			if ipv == 4 {
+				r.DstNet = append(r.DstNet, fmt.Sprintf("10.%d.%d.%d/32", 100+i/65536, (i/256)%256, i%256))
+			} else {
+				r.DstNet = append(r.DstNet, fmt.Sprintf("fd00::%x:%x/128", i/65536+1, i%65536))
+			}
+		}
+	}
+	t.Policies = []polprog.Policy{{Kind: "GlobalNetworkPolicy", Name: "biglist", Rules: []polprog.Rule{{Rule: r, MatchID: 7}}}}
+	return t
+}
+
 func genCase(seed int64, big bool) *bcase {
 	rnd := rand.New(rand.NewSource(seed))
 	c := &bcase{ipv: 4}
@@ -180,14 +213,24 @@ func genCase(seed int64, big bool) *bcase {
 			r.HostProfiles = genProfiles(rnd, c.ipv, sg, 2)
 		}
 		if big {
-			bt := bigTier(rnd, c.ipv, sg)
-			switch rnd.Intn(3) {
-			case 0:
+			// place the oversized tier where it is actually compiled for this kind of interface
+			var bt polprog.Tier
+			if seed%2 == 0 {
+				bt = bigListTier(rnd, c.ipv, int(seed/2)%3)
+			} else {
+				bt = bigTier(rnd, c.ipv, sg)
+			}
+			switch {
+			case r.ForHostInterface && rnd.Intn(2) == 0:
+				r.HostPreDnatTiers = append([]polprog.Tier{bt}, r.HostPreDnatTiers...)
+			case r.ForHostInterface:
+				r.HostForwardTiers = append(r.HostForwardTiers, bt)
+			case rnd.Intn(3) == 0:
+				r.HostPreDnatTiers = append([]polprog.Tier{bt}, r.HostPreDnatTiers...)
+			case rnd.Intn(2) == 0:
 				r.Tiers = append([]polprog.Tier{bt}, r.Tiers...)
-			case 1:
-				r.Tiers = append(r.Tiers, bt)
 			default:
-				r.HostForwardTiers = append([]polprog.Tier{bt}, r.HostForwardTiers...)
+				r.Tiers = append(r.Tiers, bt)
 			}
 		}
 	}
